@@ -13,9 +13,10 @@ import (
 
 func init() {
 	fw.Register(&fw.Property{
-		ID:     "C05",
-		Level:  "exploration",
-		Jitter: true,
+		ID:         "C05",
+		Level:      "exploration",
+		Jitter:     true,
+		RaceSample: true,
 		Rule: "gapped (reference row, query row) pairs with 0-6 insertions and 0-6 deletions of length 1-12 anywhere (first/last column, adjacent to each other, inside/adjacent to features), as a FASTA MSA of 1-8 queries (so the reference row also has gap columns caused by other queries' insertions, including partially filled insertion columns) and as SAM; model = indel scan in reference coordinates; relation = the list from the k-query MSA equals the list from the 2-row MSA (reference + that query, both-gap columns removed); " +
 			"distinct non-trivial = distinct (form, #ins class, #del class, insertion-after-earlier-reference-gap, leading/trailing insertion, end-abutting deletion kinds) for queries with at least one indel",
 		Assumptions: []string{"the relative order of del:P and ins:P records at one P is not part of the statement; only the ins/del multiset and non-decreasing positions are judged"},
